@@ -140,8 +140,9 @@ def check_case(f, rec, tmpdir=None):
     text = G.render(f)
     exp = R.all_tables(f)
     if f.get("via_file"):
-        with tempfile.TemporaryDirectory(prefix="c01_") as td:
-            p = make_parser(text, ID, via_file=Path(td))
+        from ..harness import workdir
+
+        p = make_parser(text, ID, via_file=workdir("c01"))
     else:
         p = make_parser(text, ID)
     obs = observed_tables(p, ID)
